@@ -3,7 +3,9 @@
 (* TraceLog validation for C02.  Each line records, for one lattice cell, the *)
 (* LO operator row observed at a grid node of the REAL run_yadism output   *)
 (* (projected onto exact rationals by the driver, see harness.common.snap) *)
-(* and the largest off-node entry in units of the tolerance.  The line is  *)
+(* and the largest off-node entry in units of the tolerance; further, for  *)
+(* four requests OFF the nodes in the same card, the largest deviation of  *)
+(* the operator from  x * weight * p_j(x)  (shape_milli).  The line is     *)
 (* accepted iff the row equals the textbook parton-model row computed HERE *)
 (* from the cell's parameters.                                             *)
 (***************************************************************************)
@@ -21,6 +23,7 @@ Judge(L) ==
   ELSE IF L.nf # c.nf THEN "nf"
   ELSE IF \E i \in 1..13 : L.row[i] # TextbookLO(c, PidSeq[i]) THEN "row_differs_from_parton_model"
   ELSE IF L.offnode_milli > 1000 THEN "not_kronecker_delta"
+  ELSE IF L.shape_milli > 1000 THEN "operator_off_the_nodes_is_not_weight_times_basis_function"
   ELSE "ok"
 
 VARIABLE l
